@@ -6,6 +6,7 @@ import Driver.Keyset
 import Driver.Wrap
 import Driver.Jwt
 import Driver.Mldsa
+import Driver.Sig
 /-!
   `tvdrv`: one line in, one line out. The first token selects the model.
   Unknown or malformed lines answer `bad-op` (never a default).
@@ -47,6 +48,10 @@ def dispatch (st : DState) (line : String) : DState × String :=
     | none => (st, "bad-op")
   | "D" :: rest =>
     match Driver.Ml.handle rest with
+    | some out => (st, out)
+    | none => (st, "bad-op")
+  | "G" :: rest =>
+    match Driver.Sg.handle rest with
     | some out => (st, out)
     | none => (st, "bad-op")
   | "K" :: rest =>
